@@ -180,6 +180,21 @@ def _jsonable(v: Any) -> bool:
         return False
 
 
+def private_template_dir() -> Any:
+    """zorg keeps ONE class-level TemporaryDirectory for rendering templates, made when
+    zorg.service.templates is imported.  Processes forked after the import would all
+    render through that one directory (same file names, concurrent writes) - a race that
+    separate real zorg processes never have.  Give this process a directory of its own."""
+    mod = sys.modules.get("zorg.service.templates")
+    if mod is None:
+        return None
+    import tempfile
+
+    td = tempfile.TemporaryDirectory(prefix=f"tmpl-{os.getpid()}-", dir=str(scratch_root()))
+    mod.ZorgTemplateManager.tmp_dir = td
+    return td
+
+
 def run_child(
     fn: Callable[..., Any],
     *args: Any,
@@ -225,6 +240,7 @@ def run_child(
             if day is not None:
                 freeze(day)
             payload: tuple[str, Any, Any, Any]
+            td = private_template_dir()
             try:
                 val = fn(*args, **kwargs)
                 payload = ("ok", val, None, None)
@@ -245,6 +261,8 @@ def run_child(
                 )
             with os.fdopen(w_fd, "wb") as w:
                 w.write(data)
+            if td is not None:
+                shutil.rmtree(td.name, ignore_errors=True)
             try:
                 sys.stdout.flush()
                 sys.stderr.flush()
@@ -385,6 +403,7 @@ def parallel_fold(
         if pid == 0:
             code = 0
             try:
+                private_template_dir()
                 if init:
                     init()
                 acc = new_acc()
